@@ -121,6 +121,16 @@ func (d *Delegation) Plan(c *Ctx) []hist.TxSpec {
 		}
 		return out
 	}
+	if d.n == 5 || d.n == 7 || d.n == 8 {
+		// further reward withdrawals of the same delegator while the first one is still maturing (one, three
+		// and four blocks after it): each has its own maturity height
+		if b := DelegRewardBalance(c.S, us[0]); b.Sign() > 0 {
+			if part := new(big.Int).Div(b, big.NewInt(int64(3+d.n))); part.Sign() > 0 {
+				wd(us[0], part.String(), "another reward withdrawal while an earlier one is still maturing")
+			}
+		}
+		return out
+	}
 	if d.n < 4 || c.R.Intn(2) == 0 {
 		return out
 	}
